@@ -456,7 +456,7 @@ func runC11(a *Args) error {
 	g.fsBase, _ = filepath.Abs(g.fsBase)
 	defer os.RemoveAll(g.fsBase)
 
-	nMem, nOci := 1050, 210
+	nMem, nOci := 850, 170
 	if a.Tier == "thorough" {
 		nMem, nOci = 33000, 5500
 	}
